@@ -164,6 +164,8 @@ pub struct Interp<'a> {
     /// block table of the current render: name -> definitions, most derived first, with the
     /// template each comes from
     blocks: BTreeMap<String, Vec<(String, Vec<Stmt>)>>,
+    /// (template, block) pairs declared `required`
+    required: std::collections::BTreeSet<(String, String)>,
     /// (block name, level) of the block being rendered
     current_block: Vec<(String, usize)>,
     depth: usize,
@@ -181,6 +183,7 @@ impl<'a> Interp<'a> {
             frames: vec![],
             out: vec![String::new()],
             blocks: BTreeMap::new(),
+            required: Default::default(),
             current_block: vec![],
             depth: 0,
             include_stack: vec![],
@@ -275,7 +278,10 @@ impl<'a> Interp<'a> {
                 // register this template's blocks below the more derived ones
                 let mut found = vec![];
                 collect_blocks(&body, &mut found);
-                for (bname, bbody, _req) in found {
+                for (bname, bbody, req) in found {
+                    if req {
+                        self.required.insert((current.clone(), bname.clone()));
+                    }
                     self.blocks.entry(bname).or_default().push((current.clone(), bbody));
                 }
                 let mut parent: Option<String> = None;
@@ -396,6 +402,10 @@ impl<'a> Interp<'a> {
         let Some((from, body)) = defs.get(level).cloned() else {
             return Err(RErr::NoParentBlock);
         };
+        // a required block has to be overridden before it can render
+        if self.required.contains(&(from.clone(), name.to_string())) {
+            return Err(RErr::RequiredBlock);
+        }
         self.depth += 1;
         if self.depth > MAX_DEPTH {
             return Err(RErr::RecursionLimit);
